@@ -212,7 +212,7 @@ pub fn split_file_into_chunks_by_size(f: VLines, chunks: u64) -> (r: Result<Vec<
         }
         let pair_tmp: (u64, u64) = (
             chunk_end,
-            chunk_end.max(chunk_start + chunk_size + chunk_size + chunk_size),
+            chunk_end.max(chunk_start + chunk_size + chunk_size),
         ); chunk_start = pair_tmp.0; chunk_end = pair_tmp.1;
         chunk_end = chunk_end.min(file_size);
 
